@@ -1029,6 +1029,49 @@ def _rename_expr(body, pn, base):
     rec(body)
 
 
+def n8_while_preinc(node):
+    """`while (++v < e) body`  ->  `for (++v; v < e; ++v) body`  (same for --v and the other comparisons; v an integer variable that the
+    comparison's other side does not mention).  `continue` in the body reaches the increment in both forms, `break` leaves both."""
+    import copy
+    for c in node.get("inner", []) or []:
+        if isinstance(c, dict):
+            n8_while_preinc(c)
+    inner = node.get("inner")
+    if not inner:
+        return
+    for i, w in enumerate(inner):
+        if not (isinstance(w, dict) and w.get("kind") == "WhileStmt" and len(w.get("inner", [])) == 2):
+            continue
+        cond = w["inner"][0]
+        c0 = cond
+        while c0.get("kind") in ("ParenExpr", "ImplicitCastExpr"):
+            c0 = c0["inner"][0]
+        if not (c0.get("kind") == "BinaryOperator" and c0.get("opcode") in ("<", "<=", ">", ">=", "!=")):
+            continue
+        lhs = c0["inner"][0]
+        holder_, l0 = None, lhs
+        while l0.get("kind") in ("ParenExpr", "ImplicitCastExpr"):
+            holder_, l0 = l0, l0["inner"][0]
+        if not (l0.get("kind") == "UnaryOperator" and l0.get("opcode") in ("++", "--") and not l0.get("isPostfix")):
+            continue
+        v = l0["inner"][0]
+        if v.get("kind") != "DeclRefExpr":
+            continue
+        name = v["referencedDecl"]["name"]
+        if any(x.get("kind") == "DeclRefExpr" and x.get("referencedDecl", {}).get("name") == name for x in walk(c0["inner"][1])):
+            continue
+        # the comparison now reads the variable itself
+        newcond = copy.deepcopy(cond)
+        n0 = newcond
+        while n0.get("kind") in ("ParenExpr", "ImplicitCastExpr"):
+            n0 = n0["inner"][0]
+        ref = {"kind": "ImplicitCastExpr", "type": v.get("type"), "valueCategory": "prvalue", "castKind": "LValueToRValue", "inner": [copy.deepcopy(v)],
+               "_line": cond.get("_line")}
+        n0["inner"][0] = ref
+        inc1, inc2 = copy.deepcopy(l0), copy.deepcopy(l0)
+        inner[i] = {"kind": "ForStmt", "_line": w.get("_line"), "range": w.get("range"), "inner": [inc1, {}, newcond, inc2, w["inner"][1]]}
+
+
 def light(fn):
     """the rewrites that keep the function's own statements (no inlining, loops as written): N1 switch, N6 post-increment,
     N5 conditional assignment, N4 forward substitution.  Used by the range analysis so that a flag or a hoisted temporary
@@ -1036,6 +1079,7 @@ def light(fn):
     holder = {"inner": [fn["body"]]}
     n1_switch(holder)
     _wrap_bodies(holder)
+    n8_while_preinc(holder)
     n6_postinc(holder)
     n5_ternary(holder)
     fn["body"] = holder["inner"][0]
